@@ -211,6 +211,11 @@ func convertTo(mappings map[string]any, typ reflect.Type) (any, error) {
 func assignOne(destValue reflect.Value, taken any, to string) (reflect.Value, error) {
 	if len(to) == 0 { // assign to output directly
 		toSet := reflect.ValueOf(taken)
+		if !toSet.IsValid() { // a nil value: the run-time checker has admitted it for a nil-able type
+			destValue.Set(reflect.Zero(destValue.Type()))
+			return destValue, nil
+		}
+
 		if !toSet.Type().AssignableTo(destValue.Type()) {
 			return destValue, fmt.Errorf("mapping entire value has a mismatched type. from=%v, to=%v", toSet.Type(), destValue.Type())
 		}
@@ -260,7 +265,7 @@ func assignOne(destValue reflect.Value, taken any, to string) (reflect.Value, er
 				}
 
 				if !toSet.IsValid() {
-					destValue.Interface().(map[string]any)[path] = nil
+					destValue.SetMapIndex(key, reflect.Zero(destValue.Type().Elem()))
 				} else {
 					destValue.SetMapIndex(key, toSet)
 				}
@@ -543,10 +548,6 @@ func checkAndExtractToMapKey(toMapKey string, output, toSet reflect.Value) (key 
 	}
 
 	if !toSet.IsValid() {
-		if output.Type() != reflect.TypeOf(map[string]any{}) {
-			return reflect.Value{}, fmt.Errorf("field mapping from a zero reflect.Value to map field whose map type is not map[string]any: %v", output.Type())
-		}
-
 		switch output.Type().Elem().Kind() {
 		case reflect.Map, reflect.Slice, reflect.Ptr, reflect.Interface:
 			return reflect.ValueOf(toMapKey), nil
